@@ -1167,12 +1167,12 @@ func buildConn(r *rng, sc *sessionCase, kinds []string, nonce *uint32, blocks fu
 		case "late":
 			*nonce++
 			rp := pc.reply(nonceReply(*nonce), crc)
-			// well inside the receive timeout (80 ms) even on a loaded machine
+			// well inside the receive timeout (150 ms) even on a loaded machine
 			rs = append(rs, reaction{pieces: []piece{{data: rp[:32], delay: 4000000}, {data: rp[32:], delay: 3000000}}})
 		case "toolate": // the complete reply arrives only after the receive timeout has passed: on a connection the client has given up
 			*nonce++
 			rp := pc.reply(nonceReply(*nonce), crc)
-			rs = append(rs, reaction{pieces: []piece{{data: rp, delay: sc.rt + 40000000}}})
+			rs = append(rs, reaction{pieces: []piece{{data: rp, delay: sc.rt + 60000000}}})
 		case "silent":
 			rs = append(rs, reaction{})
 		case "close-before":
@@ -1284,7 +1284,6 @@ func init() {
 			}
 			for i := 0; i < n; i++ {
 				sc := tcpSession(r)
-				sc.rt = 60000000
 				kl := 1 + i%64
 				key := r.bytes(kl)
 				switch r.intn(4) {
@@ -1419,7 +1418,7 @@ func tcpSession(r *rng) sessionCase {
 	sc := baseSession(r)
 	sc.mode = "tcp"
 	sc.sec, sc.nsec = tcpSec, tcpNsec
-	sc.rt, sc.st, sc.ct = 80000000, 500000000, 500000000
+	sc.rt, sc.st, sc.ct = 150000000, 500000000, 500000000
 	return sc
 }
 
